@@ -5,6 +5,7 @@ import ConfModel.Spec.Handoff
 import ConfModel.Spec.HandoffGlue
 import ConfModel.Model.H2Teardown
 import ConfModel.Driver.C16Init
+import ConfModel.Model.WireAsync
 namespace ConfModel.Driver.C16
 open Lean ConfModel.Driver ConfModel ConfModel.Handoff
 
@@ -332,6 +333,123 @@ def wireVerdict (inp impl : Json) : Verdict :=
              else if inner != innerSpec then s!"the Tracer behind the wireTracer holds {inner}, the completed traces are {innerSpec}"
              else if model != spec then "driver: model and history specification differ" else "" }
 
+/-! ### the per-call hand-off through the real transport with asynchronous completion, op `wireasync` -/
+
+/-- an atom of an expanded script: an operation of the model (with the index of the step it
+belongs to and whether it is that step's observation) or a barrier "the trace of k has been
+handed over" -/
+inductive AAtom
+  | op (o : WireAsync.AOp) (step : Nat) (own : Bool)
+  | barrier (k : Nat)
+
+def parseAsyncStep (ctx : List String) (i : Nat) (s : String) : Option (List AAtom) :=
+  match s.splitOn ":" with
+  | [c, k] => k.toNat?.bind fun k =>
+    match c with
+    | "rt" => some [.op (.ev k .rtBegin) i false, .op (.ev k (.rtEnd (ctx.getD k "" != "fail"))) i false]
+    | "x" => some [.op (.ev k .ctxDone) i false]
+    | "r" => some [.op (.ev k .readEnd) i false]
+    | "cl" => some [.op (.ev k .close) i false]
+    | "a" => some [.barrier k]
+    | "w" => some [.op (.begin k) i true]
+    | "p" => some [.op (.peek k) i true]
+    | "j" => some [.op (.join k) i true]
+    | "g" => some [.op (.grace k) i true]
+    | _ => none
+  | _ => none
+
+/-- the gates along an expanded script; `none` when a barrier is passed although the builder of
+its call still holds the trace (this placement of the goroutine's firing is excluded by what the
+harness waited for) -/
+def asyncGates : (Nat → WireAsync.RT) → List AAtom → Option (Nat → WireAsync.RT)
+  | r, [] => some r
+  | r, .op (.ev k e) _ _ :: rest => asyncGates (WireAsync.updR r k (WireAsync.gate (r k) e).1) rest
+  | r, .op _ _ _ :: rest => asyncGates r rest
+  | r, .barrier k :: rest => if (r k).closed then asyncGates r rest else none
+
+def insertAt {α} (l : List α) (i : Nat) (a : α) : List α := l.take i ++ a :: l.drop i
+
+/-- every placement of the goroutine's firing, one per call of `ks` -/
+def asyncExpansions (atoms : List AAtom) : List Nat → List (List AAtom)
+  | [] => [atoms]
+  | k :: ks => (asyncExpansions atoms ks).flatMap fun l =>
+      (List.range (l.length + 1)).map fun i => insertAt l i (.op (.ev k .fire) 0 false)
+
+def renderAsyncObs : WireHandoff.Obs → String
+  | .trace t => s!"T{t}"
+  | o => renderWireObs o
+
+def asyncVerdict (inp impl : Json) : Verdict :=
+  if bool (field impl "setAside") then
+    { agree := true, holds := true, nontrivial := false, cls := "set-aside-too-slow" } else
+  let ctx := strList (field inp "ctx")
+  let steps := strList (field inp "steps")
+  match (steps.zipIdx.mapM fun p => parseAsyncStep ctx p.2 p.1) with
+  | none => bad "unparsable wireasync step"
+  | some perStep =>
+    let ncalls := ctx.length
+    let calls := List.range ncalls
+    let bare := (ctx.zipIdx.filter (fun p => p.1 == "bare")).map (·.2)
+    let atoms0 := perStep.flatten
+    -- at the end the harness passes the barrier of every call whose trace is on its way
+    let r0 := WireAsync.gateAll WireAsync.init0 (atoms0.filterMap fun a => match a with | .op o _ _ => some o | _ => none)
+    let onItsWay (k : Nat) : Bool := (r0 k).closed || ((r0 k).phase != .none && (r0 k).ctxDone)
+    let atoms := atoms0 ++ (calls.filter onItsWay).map AAtom.barrier
+    let armable := calls.filter fun k => (r0 k).phase != .none && (r0 k).ctxDone
+    let exps := (asyncExpansions atoms armable).filter fun l => (asyncGates WireAsync.init0 l).isSome
+    let tracer := bool (field inp "tracer")
+    -- what one expansion shows: per step observation, per call final wrapper trace, inner Tracer
+    let view (useSpec : Bool) (l : List AAtom) : List String × List String × List String :=
+      let aops := l.filterMap fun a => match a with | .op o _ _ => some o | _ => none
+      let tags := l.filterMap fun a => match a with | .op _ i own => some (i, own) | _ => none
+      let L := WireAsync.lowerAll WireAsync.init0 aops
+      let res := WireHandoff.exec (WireHandoff.init bare) L
+      let obsAll := if useSpec then HandoffGlue.specObs bare L else res.2
+      let own := (tags.zip obsAll).filter (fun p => p.1.2)
+      let obs := (List.range steps.length).map fun i =>
+        match own.find? (fun p => p.1.1 == i) with
+        | some p => renderAsyncObs p.2
+        | none => ""
+      let fin := calls.map fun k =>
+        let a := if useSpec then (if bare.contains k then none else HandoffGlue.firstTrace k L) else (res.1.calls k).avail
+        match a with | some t => s!"T{t}" | none => "-"
+      let inner := if tracer then calls.map fun k =>
+        match HandoffGlue.firstTrace k L with | some t => s!"T{t}" | none => "-" else []
+      (obs, fin, inner)
+    let obs := (strList (field impl "obs")).map fun o => if o == "nf-early" then "nf" else o
+    let early := (strList (field impl "obs")).contains "nf-early"
+    let got := (obs, strList (field impl "fin"), strList (field impl "inner"))
+    let modelSet := (exps.map (view false)).eraseDups
+    let specSet := (exps.map (view true)).eraseDups
+    -- the property's own predicates on what the implementation showed
+    let numOf (s : String) : Option Nat := if s.startsWith "T" then (s.drop 1).toString.toNat? else none
+    let callOfStep (i : Nat) : Option Nat := match (steps.getD i "").splitOn ":" with
+      | [_, k] => k.toNat? | _ => none
+    let wrongWaiter := (obs.zipIdx.filter fun p => p.1.startsWith "T" &&
+        (match numOf p.1, callOfStep p.2 with | some n, some k => n / 8 != k | _, _ => true)).map (·.1)
+    let wrongFin := ((got.2.1 ++ got.2.2).zipIdx.filter fun p => p.1 != "-" &&
+        (match numOf p.1 with | some n => n / 8 != p.2 % ncalls | none => true)).map (·.1)
+    -- exactly once: one trace per call, wherever it is seen
+    let seenOf (k : Nat) : List String :=
+      ((obs.zipIdx.filter fun p => p.1.startsWith "T" && callOfStep p.2 == some k).map (·.1) ++
+        [got.2.1.getD k "-"] ++ (if tracer then [got.2.2.getD k "-"] else [])).filter (· != "-") |>.eraseDups
+    let twice := calls.filter fun k => (seenOf k).length > 1
+    let panicked := obs.contains "panic" || !isNull (field impl "panic")
+    let inSpec := specSet.contains got
+    let lost := obs.contains "stuck" || got.2.1.contains "stuck"
+    let holds := inSpec && wrongWaiter.isEmpty && wrongFin.isEmpty && twice.isEmpty && !panicked && !lost
+    { agree := modelSet.contains got && modelSet == specSet && !early, holds := holds,
+      nontrivial := !armable.isEmpty && steps.any (·.startsWith "w:"),
+      model := toJson (modelSet.map fun v => v.1),
+      cls := (if armable.isEmpty then "sync" else if modelSet.length > 1 then "async-several-outcomes" else "async-one-outcome"),
+      why := if panicked then "setWireTrace ran twice for one call context (close of a closed channel)"
+        else if lost then "lost: the trace of a call whose completion was on its way (context done after the round trip began, body finished, round trip failed) was never handed over (waited 5 s)"
+        else if !wrongWaiter.isEmpty then s!"an examination returned the trace of another call: {wrongWaiter}"
+        else if !wrongFin.isEmpty then s!"a call's wrapper / Tracer slot holds the trace of another call: {wrongFin}"
+        else if !twice.isEmpty then s!"calls {twice}: more than one trace handed over for one call: {twice.map seenOf}"
+        else if !inSpec then s!"observed obs={got.1} wrapper={got.2.1} tracer={got.2.2}: allowed by no placement of the asynchronous completion ({specSet.length} outcomes, e.g. {specSet.head?.map (·.1)})"
+        else if modelSet != specSet then "driver: model and history specification differ" else "" }
+
 /-! ### the server-side middleware hands over a final trace, op `final` -/
 
 def parseKey (s : String) : HandlerTrace.Key :=
@@ -596,6 +714,7 @@ def handle : Handler := fun op inp impl =>
     | _, _, _ => bad "unparsable slot op"
   | "results" => resultsVerdict inp impl
   | "wire" => wireVerdict inp impl
+  | "wireasync" => asyncVerdict inp impl
   | "final" => finalVerdict inp impl
   | "teardown" => teardownVerdict inp impl
   | "cancelrt" => cancelVerdict impl false
